@@ -198,7 +198,7 @@ func runC12(a *A) {
 		{"TypeDateTime", []int64{-1}, "C12-R4", map[string]string{"": `bytes(Sprintf("%04d-%02d-%02d %02d:%02d:%02d",(/ (/ ` + dt + ` 1000000) 10000),(/ (% (/ ` + dt + ` 1000000) 10000) 100),(% (/ ` + dt + ` 1000000) 100),(/ (% ` + dt + ` 1000000) 10000),(/ (% (% ` + dt + ` 1000000) 10000) 100),(% (% ` + dt + ` 1000000) 100)))`}, "DATETIME: decimal-packed YYYYMMDDhhmmss in 8 little-endian bytes"},
 		{"TypeTimestamp", []int64{-1}, "C12-R4", map[string]string{"": "buf{<-printTimestamp(LE(4,data[pos])): }"}, "TIMESTAMP: seconds in 4 little-endian bytes"},
 		{"TypeTimestamp2", []int64{0}, "C12-R4", map[string]string{"": "buf{<-printTimestamp(BE(4,data[pos])): }"}, "TIMESTAMP2: seconds in 4 big-endian bytes"},
-		{"TypeDateTime2", []int64{0}, "C12-R4", map[string]string{"": `buf{<-new: printf("%04d-%02d-%02d %02d:%02d:%02d",(/ (>> (>> ` + d2 + ` 17) 5) 13),(% (>> (>> ` + d2 + ` 17) 5) 13),(% (>> ` + d2 + ` 17) 32),(>> (% ` + d2 + ` 131072) 12),(% (>> (% ` + d2 + ` 131072) 6) 64),(% (% ` + d2 + ` 131072) 64))}`}, "DATETIME2: 5 big-endian bytes minus 0x8000000000; hms = low 17 bits, day = next 5 bits, ym above (year = ym/13, month = ym%13)"},
+		{"TypeDateTime2", []int64{0}, "C12-R4", map[string]string{"": `buf{<-new: printf("%04d-%02d-%02d %02d:%02d:%02d",(/ (>> (>> ` + d2 + ` 17) 5) 13),(% (>> (>> ` + d2 + ` 17) 5) 13),(& (>> ` + d2 + ` 17) 31),(>> (& 131071 ` + d2 + `) 12),(& (>> (& 131071 ` + d2 + `) 6) 63),(& (& 131071 ` + d2 + `) 63))}`}, "DATETIME2: 5 big-endian bytes minus 0x8000000000; hms = low 17 bits, day = next 5 bits, ym above (year = ym/13, month = ym%13)"},
 	})
 }
 
